@@ -7,6 +7,8 @@ import PdfModel.Model.PageTreeDerived
 
   c07.bytes <nq> <hex file> [@tag]     the byte-level composition: `PageTreeB.openPagesB` (open path, resolver, parser
                                         models, node reader) then `getPage` for i < nq; same answer format
+  c07.dflt0                            `1` iff the literal default `"0"` evaluates to the integer 0 at the tower levels 1..25
+                                        (the hypothesis `DefaultZeroEvaluates` of `page_nth_bytes_partial3`, evaluated)
   c07.agree <hex file> [@tag]          `1` iff on every page-tree object of the file the derived readers yield the node the
                                         hand-written `nodeOf` yields (the hypothesis `DerivedAgrees` of `page_nth_bytes_partial2`,
                                         evaluated), else `0 <object numbers>`
@@ -57,6 +59,13 @@ def showPage : Out Leaf → String
 
 def handle (args : List String) : String :=
   match args with
+  | ["c07.dflt0"] =>
+    -- the hypothesis `DefaultZeroEvaluates` of `page_nth_bytes_partial3`, evaluated at the tower levels in use
+    if (List.range 25).all fun k =>
+        match (Derive.semN ⟨true⟩ Generated.generatedSchemas (k + 1)).dflt "0" [] with
+        | .ok (.leaf (.int 0)) => true
+        | _ => false
+    then "1" else "0"
   | ["c07.agree", file, _tag] => handle ["c07.agree", file]
   | ["c07.agree", file] =>
     match bytesOfHex file with
